@@ -13,8 +13,8 @@ Definition hh (r h : N) : height := {| rev_number := r; rev_height := h |}.
 Definition csT := B "tm-client-state".
 Definition consT (n : N) := B "tm-cons-" ++ dec n.
 Definition T0 : tables :=
-  {| t_cs := [(csT, (TM, true)); (B "eth-client-state", (ETH, true)); (B "tss-client-state", (TSS, true)); (B "bsc-client-state", (BSC, true))];
-     t_cons := [(consT 1, (TM, true)); (consT 2, (TM, true)); (consT 3, (TM, true)); (B "eth-cons", (ETH, true)); (B "bsc-cons", (BSC, true))];
+  {| t_cs := [(csT, (TM, (TM, true))); (B "eth-client-state", (ETH, (ETH, true))); (B "tss-client-state", (TSS, (TSS, true))); (B "bsc-client-state", (BSC, (BSC, true)))];
+     t_cons := [(consT 1, (TM, (TM, true))); (consT 2, (TM, (TM, true))); (consT 3, (TM, (TM, true))); (B "eth-cons", (ETH, (ETH, true))); (B "bsc-cons", (BSC, (BSC, true)))];
      t_rel := [(B "rel-1", {| r_address := B "cosmos1abc"; r_chains := [B "abc"]; r_addresses := [B "0x01"] |})];
      t_tp := [(B "pair-1", {| tp_erc20 := B "0x00000000000000000000000000000000000000a2"; tp_denoms := [B "coin"; B "ibc/XYZ"]; tp_enabled := false; tp_owner := 1 |})];
      t_sha := [(B "0x00000000000000000000000000000000000000a2|coin", B "id-of-pair-1")];
